@@ -8,8 +8,8 @@
    Guards: frames carry PID 256 or 257 (wf_frames); source level: plain two-byte
    AudioSpecificConfig, 0 <= ns, ns*90000 < 2^63, AAC frame + 7 < 8192, non-empty NAL (wf_mux). *)
 From Coq Require Import ZArith List Bool.
-From V Require Import Bytes C09Adts C09Asc C09TsFrame C09TsWriter C09TsDemux C09TsHls
-  C09StreamProofs C09FrameProofs C09MuxProofs C09AscProofs C09HlsProofs C09Proofs.
+From V Require Import Bytes C13Pool C13PoolProofs C09Adts C09Asc C09TsFrame C09TsWriter C09TsDemux C09TsHls C09TsPool
+  C09StreamProofs C09FrameProofs C09MuxProofs C09AscProofs C09HlsProofs C09PoolProofs C09Proofs.
 Import ListNotations.
 Open Scope Z_scope.
 
@@ -184,6 +184,42 @@ Theorem C09_model_passes_hls_es : forall a plan, wf_hplan a plan = true -> plan_
 Proof. exact hls_es_passes. Qed.
 Print Assumptions C09_model_passes_hls_es.
 
+(* several mpegts.Writers share the process-wide pool of scratch buffers (one Writer per HLS segment
+   file, several streams at once).  Instance of C13's pool model (Model/C13Pool.v): writer t runs
+   [writer_prog t fs] — per frame Get+Reset, Write Header, Write Payload, one buffer READ per TS
+   packet, Put after the last.  For EVERY interleaving of any number of writers and every choice the
+   pool makes when asked (sched), once all are done the output of every writer, assembled from what it
+   actually read while cutting each packet, is byte for byte the single-writer output of its own frames *)
+Theorem C09_writers_independent : forall fss sched,
+  let s := prun sched (pinit (writers_progs fss)) in
+  pfinished (length fss) s = true ->
+  forall t, (t < length fss)%nat -> writer_output s t (nth t fss []) = ts_write_all (nth t fss []).
+Proof. exact writers_independent. Qed.
+Print Assumptions C09_writers_independent.
+
+(* at every point of every such execution no buffer is in the pool twice, in the pool while held, or held twice *)
+Theorem C09_writers_pool_ownership : forall fss sched,
+  let s := prun sched (pinit (writers_progs fss)) in
+  NoDup (ps_pool s) /\
+  (forall t v b, holds s t v b -> ~ In b (ps_pool s)) /\
+  (forall t1 v1 t2 v2 b, holds s t1 v1 b -> holds s t2 v2 b -> t1 = t2 /\ v1 = v2).
+Proof. exact writers_pool_ownership. Qed.
+Print Assumptions C09_writers_pool_ownership.
+
+(* the buffer returned to the pool before the packets are cut (Get / defer Put inside a helper that
+   returns buf.Bytes()): not disciplined, and a schedule exists in which a writer's second packet
+   carries the other writer's bytes — framing still parses, the oracle rejects *)
+Theorem C09_early_put_refuted :
+  let progs := [frame_prog_early_put 0%nat ex_fa; frame_prog_early_put 1%nat ex_fb] in
+  let sched := [(0,0);(0,0);(0,0);(0,0);(0,0); (1,0);(1,0);(1,0);(1,0);(1,0);(1,0); (0,0)]%nat in
+  let s := prun sched (pinit progs) in
+  disciplined progs = false /\ pfinished 2%nat s = true /\
+  writer_output s 1%nat [ex_fb] = ts_write_all [ex_fb] /\
+  bytes_eqb (writer_output s 0%nat [ex_fa]) (ts_write_all [ex_fa]) = false /\
+  ok_writer [ex_fa] (writer_output s 0%nat [ex_fa]) = false.
+Proof. exact early_put_refuted. Qed.
+Print Assumptions C09_early_put_refuted.
+
 (* non-vacuity: a key frame needing stuffing in its only packet, an audio frame, a
    two-packet frame with PTS+DTS beyond 2^33, an in-band SPS (dropped) — guards hold, oracles accept *)
 Example C09_nonvacuous :
@@ -238,3 +274,10 @@ Example C09_nonvacuous_asc :
   asc_of_env e = {| asc_obj := 2; asc_sidx := 4; asc_chan := 2 |} /\
   asc_of_config [0x13; 0x90; 0x56; 0xE5; 0xA0] = Some {| asc_obj := 2; asc_sidx := 4; asc_chan := 2 |}.
 Proof. vm_compute. repeat split; reflexivity. Qed.
+
+Example C09_nonvacuous_writers :
+  let fss := [[ex_fa]; [ex_fb]] in
+  let sched := [(0,0);(0,0);(0,0);(0,0); (1,0);(1,0);(1,0);(1,0);(1,0);(1,0); (0,0);(0,0)]%nat in
+  let s := prun sched (pinit (writers_progs fss)) in
+  pfinished 2%nat s = true /\ ok_writer [ex_fa] (writer_output s 0%nat [ex_fa]) = true /\ ps_next s = 2%nat.
+Proof. exact good_writers_run. Qed.
